@@ -87,6 +87,21 @@ def flurry_job(rng, jid, whole=0.12):
             "sched": gen.schedule(rng, nt, 400), "finals": keys, "rec": ["step", "site"], "budget": 200000}
 
 
+SET_OPS = {"try_insert": "insert", "compute": "remove", "get_key_value": "get", "contains_key": "contains", "remove_entry": "take",
+           "retain_force": "retain"}
+
+
+def as_set_job(job):
+    """the same program on a HashSet (operations renamed to the set's API)"""
+    job = json.loads(json.dumps(job))
+    job["kind"] = "set"
+    job["cfg"] += "-set"
+    for prog in [job["prefix"]] + job["threads"]:
+        for o in prog:
+            o["op"] = SET_OPS.get(o["op"], o["op"])
+    return job
+
+
 def _tlc_one(args):
     rec, tag, i, diag = args
     tf = os.path.join(lib.WORK, "%s.fl%05d.ndjson" % (tag, i))
@@ -145,6 +160,7 @@ def leg(pid, tier, seed, verdict, n=None, tag=None, whole=0.12):
     n = n or (150 if tier == "quick" else 1500)
     tag = tag or ("fl" + pid.lower())
     jobs = [flurry_job(rng, "%s-%05d" % (tag, i), whole=whole) for i in range(n)]
+    jobs = [as_set_job(j) if i % 5 == 4 else j for i, j in enumerate(jobs)]
     res = lib.run_jobs(jobs, tag, procs=8, timeout=1800)
     recs, byid = [], {}
     skipped = crashed = 0
